@@ -3,22 +3,53 @@
 #ifndef TETL_CMATH_COSH_HPP
 #define TETL_CMATH_COSH_HPP
 
+#include <etl/_config/all.hpp>
+
 #include <etl/_3rd_party/gcem/gcem.hpp>
 #include <etl/_concepts/integral.hpp>
+#include <etl/_type_traits/is_constant_evaluated.hpp>
+#include <etl/_type_traits/is_same.hpp>
 
 namespace etl {
+
+namespace detail {
+
+template <typename T>
+[[nodiscard]] constexpr auto cosh(T arg) noexcept -> T
+{
+    if (not is_constant_evaluated()) {
+        if constexpr (is_same_v<T, float>) {
+#if __has_builtin(__builtin_coshf)
+            return __builtin_coshf(arg);
+#endif
+        }
+        if constexpr (is_same_v<T, double>) {
+#if __has_builtin(__builtin_cosh)
+            return __builtin_cosh(arg);
+#endif
+        }
+        if constexpr (is_same_v<T, long double>) {
+#if __has_builtin(__builtin_coshl)
+            return __builtin_coshl(arg);
+#endif
+        }
+    }
+    return detail::gcem::cosh(arg);
+}
+
+} // namespace detail
 
 /// \ingroup cmath
 /// @{
 
 /// Computes the hyperbolic cosine of arg
 /// \details https://en.cppreference.com/w/cpp/numeric/math/cosh
-[[nodiscard]] constexpr auto cosh(float arg) noexcept -> float { return etl::detail::gcem::cosh(arg); }
-[[nodiscard]] constexpr auto coshf(float arg) noexcept -> float { return etl::detail::gcem::cosh(arg); }
-[[nodiscard]] constexpr auto cosh(double arg) noexcept -> double { return etl::detail::gcem::cosh(arg); }
-[[nodiscard]] constexpr auto cosh(long double arg) noexcept -> long double { return etl::detail::gcem::cosh(arg); }
-[[nodiscard]] constexpr auto coshl(long double arg) noexcept -> long double { return etl::detail::gcem::cosh(arg); }
-[[nodiscard]] constexpr auto cosh(integral auto arg) noexcept -> double { return etl::detail::gcem::cosh(double(arg)); }
+[[nodiscard]] constexpr auto cosh(float arg) noexcept -> float { return etl::detail::cosh(arg); }
+[[nodiscard]] constexpr auto coshf(float arg) noexcept -> float { return etl::detail::cosh(arg); }
+[[nodiscard]] constexpr auto cosh(double arg) noexcept -> double { return etl::detail::cosh(arg); }
+[[nodiscard]] constexpr auto cosh(long double arg) noexcept -> long double { return etl::detail::cosh(arg); }
+[[nodiscard]] constexpr auto coshl(long double arg) noexcept -> long double { return etl::detail::cosh(arg); }
+[[nodiscard]] constexpr auto cosh(integral auto arg) noexcept -> double { return etl::detail::cosh(double(arg)); }
 
 /// @}
 
